@@ -310,8 +310,37 @@ def given_weights_above_coefficient_threshold(prog: Program, rep, RID: str, clas
         norms = [st for st in ast.walk(init.node) if isinstance(st, ast.Assign) and any(norm(t) == "self.solution_weights_superset" for t in st.targets) and
                  isinstance(st.value, (ast.ListComp, ast.GeneratorExp, ast.Call))]
         ok = None
+        # every store of the attribute, in any method: the parameter itself, a value-preserving conversion, or the threshold normalisation read below
+        for m_ in prog.cls(cname).methods.values():
+            for st in ast.walk(m_.node):
+                if not (isinstance(st, ast.Assign) and any(norm(t) == "self.solution_weights_superset" for t in st.targets)):
+                    continue
+                from rules.common import local_single_defs as _lsd, substitute_locals as _sl
+                _consts = {k_: x_ for k_, x_ in _lsd(m_.node).items() if isinstance(x_, ast.Constant)}
+                v0 = _sl(st.value, _consts) if _consts else st.value
+                if norm(v0) in ("solution_weights_superset", "None") or (isinstance(v0, ast.Call) and dotted(v0.func) in ("list", "tuple") and len(v0.args) == 1 and
+                                                                          norm(v0.args[0]) in ("solution_weights_superset", "self.solution_weights_superset")):
+                    continue
+                comp_ = v0.args[0] if isinstance(v0, ast.Call) and dotted(v0.func) in ("list", "tuple") and len(v0.args) == 1 else v0
+                if isinstance(comp_, (ast.ListComp, ast.GeneratorExp)) and len(comp_.generators) == 1 and not comp_.generators[0].ifs and \
+                        norm(comp_.generators[0].iter) in ("self.solution_weights_superset", "solution_weights_superset"):
+                    w_ = norm(comp_.generators[0].target)
+                    e_ = comp_.elt
+                    if norm(e_) in (w_, f"float({w_})", f"{w_}.item() if hasattr({w_}, 'item') else {w_}"):
+                        continue
+                    if isinstance(e_, ast.IfExp) and isinstance(e_.test, ast.Compare) and len(e_.test.ops) == 1 and isinstance(e_.test.comparators[0], ast.Constant) and \
+                            norm(e_.test.left) == w_:
+                        continue      # constant threshold: judged below
+                    if isinstance(e_, ast.IfExp):
+                        rep.violation(RID, f"{cname}.{m_.name}:given-weights-unaltered", f"`{norm(st)[:110]}` replaces given weights under `{norm(e_.test)[:60]}`: the model then "
+                                      "optimises over other weights than the caller gave (in an error model a weight above the largest flow value can be optimal: |10 - 11| = 1 "
+                                      "beats |10 - 0| = 10), and reports the replaced weights as 0", m_.loc(st), self_contained=True)
+                        continue
+                raise AnalysisError(f"{cname}.{m_.name}: store `{norm(st)[:90]}` of the given weights not recognised")
         for st in norms:
-            v = st.value
+            from rules.common import local_single_defs as _lsd2, substitute_locals as _sl2
+            _c2 = {k_: x_ for k_, x_ in _lsd2(init.node).items() if isinstance(x_, ast.Constant)}
+            v = _sl2(st.value, _c2) if _c2 else st.value
             if isinstance(v, ast.Call) and dotted(v.func) in ("list", "tuple") and len(v.args) == 1:
                 v = v.args[0]
             if not isinstance(v, (ast.ListComp, ast.GeneratorExp)) or len(v.generators) != 1 or norm(v.generators[0].iter) not in ("self.solution_weights_superset", "solution_weights_superset"):
@@ -335,5 +364,7 @@ def given_weights_above_coefficient_threshold(prog: Program, rep, RID: str, clas
                           "a bare Exception('Error adding constraint to the model.') instead of building the model; no store replaces such entries by 0", init.loc())
         elif ok[1] < 1e-9:
             rep.violation(RID, key, f"entries above {ok[1]} are kept as coefficients, but the solver refuses non-zero coefficients up to 1e-9", init.loc(ok[0]))
+        elif ok[1] > 1e-6:
+            rep.violation(RID, key, f"entries up to {ok[1]} are replaced by 0: that is above any solver tolerance - weights the caller gave are dropped", init.loc(ok[0]))
         else:
             rep.ok(RID, key, f"entries <= {ok[1]} are replaced by 0 before the rows are built", init.loc(ok[0]))
